@@ -58,6 +58,74 @@ func (g *commonGen) template(w *World, name string, b int) []Step {
 			out = append(out, Step{Kind: "op_unlock", B: b, A: a}, Step{Kind: "login", B: b, A: a, Sec: wrong()}, Step{Kind: "login", B: b, A: a, Sec: pw(a)})
 		}
 		return out
+	case "remember_cycle":
+		// log in with rm, lose the session, come back with the cookie, replay the old cookie
+		out := []Step{{Kind: "login", B: b, A: a, Sec: pw(a), RM: true}, {Kind: "drop_session", B: b}, g.fill(w, "probe", b)}
+		switch g.r.Intn(4) {
+		case 0: // stale copy presented again from the same browser
+			out = append(out, Step{Kind: "drop_session", B: b}, Step{Kind: "stale_cookie", B: b, Str: map[string]string{"from": fmt.Sprint(b), "idx": "-2"}}, g.fill(w, "probe", b))
+		case 1: // theft: another browser presents the current cookie first
+			ob := (b + 1) % len(w.Browsers)
+			out = append(out, Step{Kind: "copy_cookie", B: ob, Str: map[string]string{"from": fmt.Sprint(b)}}, Step{Kind: "drop_session", B: ob}, g.fill(w, "probe", ob),
+				Step{Kind: "drop_session", B: b}, g.fill(w, "probe", b))
+		case 2:
+			out = append(out, Step{Kind: "logout", B: b}, g.fill(w, "probe", b))
+		}
+		return out
+	case "recover_flow":
+		out := []Step{{Kind: "recover_start", B: b, A: a}}
+		if g.r.Chance(1, 4) {
+			out = append(out, Step{Kind: "recover_start", B: b, A: a}) // supersedes the first
+		}
+		st := Step{Kind: "recover_end", B: b, A: a, Sec: g.secretFor(w, "recover_end", a, b), Sec2: g.newPassword()}
+		if g.r.Chance(1, 3) {
+			st.Gap = durationsAround(g.r, c.RecoverDur)
+			if st.Gap < 0 {
+				st.Gap = 0
+			}
+			if c.WholeSecondClock {
+				st.Gap = st.Gap.Round(time.Second)
+			}
+		}
+		out = append(out, st)
+		if g.r.Bool() {
+			out = append(out, Step{Kind: "login", B: b, A: a, Sec: pw(a)})
+		}
+		if g.r.Chance(1, 3) {
+			out = append(out, Step{Kind: "login", B: b, A: a, Sec: &SecretRef{Kind: "oldpassword", A: a, Idx: -1}})
+		}
+		if g.r.Chance(1, 3) { // use the same link again
+			out = append(out, Step{Kind: "recover_end", B: b, A: a, Sec: &SecretRef{Kind: "recover", A: a, Idx: -1}, Sec2: g.newPassword()})
+		}
+		return out
+	case "register_flow":
+		st := g.fill(w, "register", b)
+		out := []Step{st}
+		if c.hasModule("confirm") {
+			out = append(out, Step{Kind: "confirm", B: b, A: st.A, Sec: g.secretFor(w, "confirm", st.A, b)})
+		}
+		out = append(out, Step{Kind: "login", B: b, A: st.A, Sec: pw(st.A)})
+		return out
+	case "oauth_flow":
+		s1 := g.fill(w, "oauth2_start", b)
+		s2 := g.fill(w, "oauth2_callback", b)
+		s2.Str["provider"] = s1.Str["provider"]
+		out := []Step{s1, s2}
+		if g.r.Chance(1, 3) {
+			out = append(out, Step{Kind: "replay", B: b})
+		}
+		return out
+	case "otp_flow":
+		out := []Step{{Kind: "login", B: b, A: a, Sec: pw(a)}, {Kind: "otp_add", B: b, A: a}, {Kind: "logout", B: b},
+			{Kind: "otp_login", B: b, A: a, Sec: &SecretRef{Kind: "otp", A: a, Idx: -1}}}
+		if g.r.Bool() {
+			out = append(out, Step{Kind: "logout", B: b}, Step{Kind: "otp_login", B: b, A: a, Sec: &SecretRef{Kind: "otp", A: a, Idx: -1}})
+		}
+		return out
+	case "twofa_login":
+		// primary credential then the right second factor
+		out := []Step{{Kind: "login", B: b, A: a, Sec: pw(a)}}
+		return out
 	case "twofa_fail":
 		// correct password, then wrong second-factor codes
 		out := []Step{{Kind: "login", B: b, A: a, Sec: pw(a)}}
